@@ -630,10 +630,13 @@ def check_tables(tier, rng, okx):
         bad = [i for i, v in enumerate(table) if v != cand[0][i] and v != cand[1][i]]
         if bad:
             i = bad[0]
-            out["viol"].setdefault(("hardswish", "value"), (dict(table="hardswish", failure="value"),
+            warned = any("overflow" in w for w in r[2])
+            out["viol"].setdefault(("hardswish", "value", warned, bool(rsh < 31)), (
+                dict(table="hardswish", failure="value", numpy_overflow_warning=warned, relu_shift_below_31=bool(rsh < 31)),
                                                            dict(key, code=qmin + i, observed=table[i], reference_double=cand[0][i],
                                                                 reference_float32=cand[1][i], n_bad=len(bad), warnings=r[2]),
-                                                           "hard-swish table entry differs from the TFLite reference kernel"))
+                                                           "hard-swish table entry differs from the TFLite reference kernel (ifm_scale=%r, code %d: %d, reference %d)" % (
+                                                               dsi, qmin + i, table[i], cand[0][i])))
         mcases.append([zi, zo, int(os_), int(osh), int(rs_), int(rsh), qmin, qmax])
         minfo.append((key, table, cand))
     if okx and mcases:
@@ -880,7 +883,8 @@ def run(tier):
         what = "fp_math.%s(%s) on %r gives %r, the reference gives %r (%d such cases)" % (
             name, tkey, v["args"], v["observed"], v["required"], v["count"])
         raised += bool(res.violation({"function": name, "arg_types": tkey}, v, what))
-    for (tname, kind), (key, detail, what) in sorted(tb["viol"].items()):
+    for tk, (key, detail, what) in sorted(tb["viol"].items()):
+        tname = tk[0]
         explained.add(tname)
         raised += bool(res.violation(key, detail, what))
     n_cert_ok = n_cert_entries = n_cached = 0
